@@ -5,6 +5,7 @@ mod corpus;
 mod gen;
 mod html;
 mod parse;
+mod sub;
 mod util;
 
 pub struct Args {
@@ -51,6 +52,7 @@ fn main() {
     match args.suite.as_str() {
         "parse" => parse::run(&args),
         "html" => html::run(&args),
+        "sub" => sub::run(&args),
         s => {
             eprintln!("unknown suite {s}");
             std::process::exit(2);
